@@ -208,6 +208,12 @@ theorem cleanup_actions {α : Type} (now age : Int) (s s' : St α) (h : cleanUp 
     unfold sweep at this
     rwa [fold_actions] at this
 
+/-- The helper index `flow_id_states` stays exact: if it listed exactly the instances of every flow id
+    before the clean-up (in `flow_states` order), it does so afterwards. -/
+theorem cleanup_keeps_index {α : Type} (now age : Int) (s : St α) (hnd : (s.flows.map (·.uid)).Nodup)
+    (h : IdxOk s) : IdxOk (sweep now age s) :=
+  sweep_idx now age s hnd h
+
 /-- Ageing is monotone: what is removable now stays removable later. -/
 theorem removable_mono (now now' age : Int) (f : Flow) (hle : now ≤ now') (h : removable now age f = true) :
     removable now' age f = true := by
